@@ -1024,36 +1024,9 @@ def shrink_case(exe, model, case, pr, what):
 
 
 def classify(case, pr, r, prev):
-    """narrow classifiers of the recorded findings (KNOWN_FINDINGS.txt); None = not a known root cause.
-    KF-YANK-LINE-COL: a LINE-wise yank with a backward motion (yk, y1G, yH, y-, y{) moves the cursor line up, keeps the
-    offset and returns mod 0, so the column the terminal cursor is drawn at is the old line's."""
-    if pr[0] != 'cmd' or pr[1] == 0 or r.get('status') != 'fail' or r.get('buf') is None:
-        return None
-    last = bytes.fromhex(case['atoms'][pr[1] - 1])
-    b = last.lstrip(DIGITS)
-    if b[:1] == b'"':
-        b = b[2:].lstrip(DIGITS)
-    buf, xrow, what = r['buf'], r['xrow'], r['what']
-    hll = 'se hll' in case.get('exinit', '') or any(bytes.fromhex(a).startswith(b':se hll') for a in case['atoms'][:pr[1]])
-    split, act = layout_after(case, pr[1])
-    (woff, h), _ = geometry(case['rows'], split, act)
-    if what.endswith('terminal cursor not on the cell of the cursor character'):
-        if prev and prev.get('xrow') is not None and b[:1] == b'y' and len(b) >= 2 and b[1:2] != b'y' and xrow < prev['xrow']:
-            return 'KF-YANK-LINE-COL'
-    # KF-HLL-DELETE-END: lines deleted through the last line under `hll`: vi_delete draws with xrow one past the end, so the
-    # first filler row takes the current-line highlight; the tail repaints only the old and the new cursor line
-    if what.startswith('row attributes (highlighting) differ') and hll and b[:1] == b'd' and r.get('top') is not None:
-        if xrow == len(buf) - 1 and r['observed'].get('rows') == [len(buf) - r['top']]:
-            return 'KF-HLL-DELETE-END'
-    # KF-INSERT-LEFT: insert mode moved xleft, the typed rows were drawn at it, the last typed line was blank (its auto-indent is
-    # dropped), so the tail moved xleft back to the value before the command and saw no reason for a repaint
-    if 'the text rows are not a window of the buffer lines' in what and insert_body(last) and 'noai' not in case.get('exinit', ''):
-        st = view(r['st'], woff, h)
-        top = xrow - st['r']
-        if xrow < len(buf) and buf[xrow].strip(' \t') == '' and top >= 0:
-            mw = maxwidth(buf)
-            if all(any(render(row_text(buf, top + i), l, case['cols']) == st['cp'][i] for l in range(mw + 1)) for i in range(h)):
-                return 'KF-INSERT-LEFT'
+    """narrow classifiers of the findings recorded in KNOWN_FINDINGS.txt; None = not a known root cause.  No open finding at
+    present: the earlier ones (yank columns, empty change, sticky left, failed ex command, hll after deleting through the last
+    line, insert mode leaving another xleft) are repaired in /repo; their inputs are corpus cases that must pass."""
     return None
 
 
